@@ -6,7 +6,7 @@ from __future__ import annotations
 
 import numpy as np
 
-from harness.common import bl, listl, ql, run_main, setup_jax, zl
+from harness.common import bl, listl, ql, release_jit, run_main, setup_jax, zl
 
 jax = setup_jax(x64=True)
 import equinox as eqx  # noqa: E402
@@ -99,6 +99,8 @@ def body(ck):
         ck.count(f"N={N}"); ck.count("wrapped" if wrapped else "not_wrapped"); ck.count("sample_batches", len(batches))
         if mixed:
             ck.count("mixed_fill_levels")
+        if idx % 40 == 39:
+            add_jit.clear(); release_jit(39)
     ck.current_case = None
     ck.log(f"{len(cases)} cases")
     res = ck.run_coq_cases("C06Check", cases, shard=15, preamble="From Lerax Require Import Replay.\nImport C06Check.")
